@@ -210,7 +210,7 @@ import os as _os
 import pathlib as _pathlib
 import re as _re
 from collections.abc import MappingView
-from typing import ForwardRef, SupportsAbs, SupportsIndex, SupportsInt
+from typing import ForwardRef, SupportsAbs, SupportsIndex, SupportsInt, Unpack
 RePatternStr = _re.Pattern[str]
 ReMatchStr = _re.Match[str]
 PathLikeStr = _os.PathLike[str]
